@@ -503,6 +503,13 @@ pub fn c11(o: &Opts, t: &mut Tracer) -> Value {
                                             sim.op_try_response(t, "partial", Some(&fin));
                                         }
                                         sim.op_try_response(t, "late100", Some(&fin));
+                                        if give_up_at % 3 == 0 {
+                                            // the server repeats the interim response: skipped once only
+                                            sim.took100 = false;
+                                            sim.op_try_response(t, "late100", Some(&fin));
+                                            sim.took100 = true;
+                                            t.class("c11:second-100");
+                                        }
                                     }
                                     sim.op_try_response(t, "final", Some(&fin));
                                     sim.op_proceed(t);
